@@ -507,6 +507,10 @@ def builtin : Nat → String → List Val → M Val
       let v := args.headD .nil
       modify (fun s => { s with trace := s.trace ++ [pr s.heap v] })
       pure v
+    else if name = "probe" then do
+      -- host function of channel `tail` (C09): records the data/scope/address stack depths
+      modify (fun s => { s with trace := s.trace ++ [s!"P{pr s.heap (args.headD .nil)}:{s.data.length}/{s.linear.length}/{s.addr.length}"] })
+      pure .nil
     else if name = "force" then
       match args with
       | [.lazy id] => forceLazy fuel id
